@@ -69,7 +69,7 @@ def _is_native(value, native_type, excluded=()):
 
 
 _date_re = re.compile(DATE_PATTERN)
-_time_re = re.compile(TIME_PATTERN)
+_time_re = re.compile(TIME_PATTERN + '$')
 _duration_re = re.compile(
         r'(?P<sign>-?)'
         r'P'
@@ -79,6 +79,7 @@ _duration_re = re.compile(
         r'(?:T(?:(?P<hours>\d+)H)?'
         r'(?:(?P<minutes>\d+)M)?'
         r'(?:(?P<seconds>\d+(\.\d+)?)S)?)?'
+        r'$'
     )
 
 
